@@ -122,7 +122,7 @@ extern "C" int copies()
     assignAlt(v[0], 4 + vf_pick(4)); v[1] = v[0];       // two variables sharing one heap payload
     for(unsigned k = 0; k < VF_K; ++k)
     {
-      unsigned op = vf_pick(9);
+      unsigned op = vf_pick(10);
       if(op == 0) break;
       unsigned t = vf_pick(NV);
       for(unsigned i = 0; i < NV; ++i) snap(v[i], before[i]);
@@ -135,6 +135,11 @@ extern "C" int copies()
       case 5: { String& s = v[t].toString(); s.append('x'); Snap a; snap(v[t], a); vf_assert(a.type == Variant::stringType, "mutable toString makes it a string"); break; }
       case 6: { List<Variant>& l = v[t].toList(); unsigned n = l.size(); l.append(Variant(7)); Snap a; snap(v[t], a); vf_assert(a.type == Variant::listType && a.size == n + 1, "mutable toList: the change is visible in this Variant"); break; }
       case 7: { Array<Variant>& arr = v[t].toArray(); unsigned n = arr.size(); arr.append(Variant(8)); Snap a; snap(v[t], a); vf_assert(a.type == Variant::arrayType && a.size == n + 1, "mutable toArray: the change is visible in this Variant"); break; }
+      case 9: { // assign a Variant one of its own elements (descending into a tree): as if the argument had been copied first
+        const Variant& cv = v[t];
+        if(cv.getType() == Variant::listType && !cv.toList().isEmpty()) { int ty; int64 val; snapScalar(cv.toList().front(), ty, val); v[t] = cv.toList().front(); int ty2; int64 val2; snapScalar(v[t], ty2, val2); vf_assert(ty2 == ty && val2 == val, "v = v.toList().front() yields the element"); }
+        else if(cv.getType() == Variant::mapType && !cv.toMap().isEmpty()) { int ty; int64 val; snapScalar(*cv.toMap().begin(), ty, val); v[t] = *cv.toMap().begin(); int ty2; int64 val2; snapScalar(v[t], ty2, val2); vf_assert(ty2 == ty && val2 == val, "v = *v.toMap().begin() yields the element"); }
+        break; }
       case 8: { HashMap<String, Variant>& m = v[t].toMap(); unsigned n = m.size(); char kn[2] = {'n', (char)('0' + k)}; m.append(String(kn, 2), Variant(9)); Snap a; snap(v[t], a); vf_assert(a.type == Variant::mapType && a.size == n + 1, "mutable toMap: the change is visible in this Variant"); break; }
       }
       // every other variable is untouched
